@@ -613,7 +613,6 @@ impl<B: AsRef<[usize]> + BitCount> SelectAdapt<B, Box<[usize]>> {
                 // Note that this can happen multiple times in the same word if
                 // the quantum is small, hence the following loop.
                 while past_ones + ones_in_word > next_quantum {
-                    debug_assert!(next_quantum <= end_bit_idx);
                     // find the quantum bit in the word
                     let in_word_index = word.select_in_word(next_quantum - past_ones);
                     // compute the global index of the quantum bit in the bitvec
